@@ -297,6 +297,9 @@ def instances(tier):
         ((2, 2), ("i", "n", (1, 1, -1))),
         ((2, 2), ((1, 1, None), "n", "i")),
         ((2, 2), ("e", "n")),
+        ((2, 1), ("n", (1, 1, None), "n", "i")),
+        ((1, 2), ("n", "n", "i")),
+        ((2, 1), ("i", "n", (1, 1, None), "n")),
         ((2, 2), ("n", "e", (1, 1, 2))),
         ((2, 2), ((1, 1, None),)),
         ((3, 2), ((1, 1, -1), (1, 1, -1))),
